@@ -355,6 +355,14 @@ func TestReplay(t *testing.T) {
 	if err != nil {
 		t.Fatal(err)
 	}
+	if cf.Sub == "cli" {
+		var cc CLIStop
+		if err := json.Unmarshal(cf.Case, &cc); err != nil {
+			t.Fatal(err)
+		}
+		checkCLIStop(t, cc)
+		return
+	}
 	if cf.Sub == "gap" {
 		replayGap(t, cf.Case)
 		return
